@@ -70,6 +70,7 @@ class Cfg(object):
         self.ids_flat = 8  # 1 in n specs uses the same ID strings for objects of different kinds
         self.multi_parent = 0  # 1 in n nested "free" specs gives some component a second parent
         self.org_tree = 0  # 1 in n specs sets parent_team / parent_workplace links
+        self.quality = 5  # 1 in n workers has quality skills (they only feed the component error counter, no log)
         self.auto_nf = True  # automatic tasks bound to a component may be flagged need_facility
         self.default_names = 6  # 1 in n specs: workers, teams, workplaces, components all have their kind's default name
         self.unit_time = 0  # 1 in n cold-started specs is simulated with unit_time 2 or 3 (only honoured by simcheck.Sim and C07/C15)
@@ -277,6 +278,9 @@ def model_spec(draw, cfg):
         }
         if cfg.worker_abs and _one_in(draw, cfg.abs_p):
             w["abs"] = draw(resource_abs(cfg))
+        if _one_in(draw, cfg.quality):
+            qs = draw(st.lists(st.sampled_from([None, 0.2, 0.5, 1.0]), min_size=n, max_size=n))
+            w["q"] = {str(k): qs[k] for k in range(n) if qs[k] is not None}
         if facs:
             fs = draw(
                 st.lists(
